@@ -19,6 +19,7 @@ var All = []*ev.Property{
 	C13,
 	C14,
 	C15,
+	C16,
 	C19,
 	C20,
 }
